@@ -358,6 +358,86 @@ func init() {
 		m.w = true
 		return in.st.True
 	})
+	// ---------- sync.Map: association-list model (the real one hashes keys through runtime type info) ----------
+	anyT := types.NewInterfaceType(nil, nil)
+	smap := func(in *Interp, p Value) *MapObj {
+		if in.syncMaps == nil {
+			in.syncMaps = map[string]*MapObj{}
+		}
+		k := ptrKey(p.(Ptr))
+		m := in.syncMaps[k]
+		if m == nil {
+			in.nextObj++
+			m = &MapObj{id: in.nextObj, keyT: anyT, valT: anyT}
+			in.syncMaps[k] = m
+		}
+		return m
+	}
+	reg("(*sync.Map).Load", func(in *Interp, c *Frame, fn *ssa.Function, a []Value) Value {
+		in.yieldPoint("sync.Map")
+		m := smap(in, a[0])
+		if i := in.mapFind(m, a[1]); i >= 0 {
+			return Tuple{m.ents[i].v, in.st.True}
+		}
+		return Tuple{Iface{}, in.st.False}
+	})
+	reg("(*sync.Map).Store", func(in *Interp, c *Frame, fn *ssa.Function, a []Value) Value {
+		in.yieldPoint("sync.Map")
+		in.mapUpdate(smap(in, a[0]), a[1], a[2])
+		return nil
+	})
+	reg("(*sync.Map).Delete", func(in *Interp, c *Frame, fn *ssa.Function, a []Value) Value {
+		in.yieldPoint("sync.Map")
+		in.mapDelete(smap(in, a[0]), a[1])
+		return nil
+	})
+	reg("(*sync.Map).Clear", func(in *Interp, c *Frame, fn *ssa.Function, a []Value) Value {
+		in.yieldPoint("sync.Map")
+		in.setMapEnts(smap(in, a[0]), nil)
+		return nil
+	})
+	reg("(*sync.Map).LoadOrStore", func(in *Interp, c *Frame, fn *ssa.Function, a []Value) Value {
+		in.yieldPoint("sync.Map")
+		m := smap(in, a[0])
+		if i := in.mapFind(m, a[1]); i >= 0 {
+			return Tuple{m.ents[i].v, in.st.True}
+		}
+		in.mapUpdate(m, a[1], a[2])
+		return Tuple{a[2], in.st.False}
+	})
+	reg("(*sync.Map).LoadAndDelete", func(in *Interp, c *Frame, fn *ssa.Function, a []Value) Value {
+		in.yieldPoint("sync.Map")
+		m := smap(in, a[0])
+		if i := in.mapFind(m, a[1]); i >= 0 {
+			v := m.ents[i].v
+			in.mapDelete(m, a[1])
+			return Tuple{v, in.st.True}
+		}
+		return Tuple{Iface{}, in.st.False}
+	})
+	reg("(*sync.Map).Swap", func(in *Interp, c *Frame, fn *ssa.Function, a []Value) Value {
+		in.yieldPoint("sync.Map")
+		m := smap(in, a[0])
+		var prev Value = Iface{}
+		loaded := in.st.False
+		if i := in.mapFind(m, a[1]); i >= 0 {
+			prev, loaded = m.ents[i].v, in.st.True
+		}
+		in.mapUpdate(m, a[1], a[2])
+		return Tuple{prev, loaded}
+	})
+	reg("(*sync.Map).Range", func(in *Interp, c *Frame, fn *ssa.Function, a []Value) Value {
+		in.yieldPoint("sync.Map")
+		m := smap(in, a[0])
+		f := a[1].(*Closure)
+		for _, e := range append([]mapEnt(nil), m.ents...) {
+			r := in.callClosure(f, []Value{e.k, e.v}, c)
+			if !in.branch(r.(*Term)) {
+				break
+			}
+		}
+		return nil
+	})
 	reg("(*sync.Pool).Get", func(in *Interp, c *Frame, fn *ssa.Function, a []Value) Value {
 		p := a[0].(Ptr)
 		pool := in.load(p).(*Agg)
